@@ -21,6 +21,7 @@ import (
 	"strconv"
 	"strings"
 	"sync"
+	"syscall"
 	"time"
 
 	"veriftools/build"
@@ -300,6 +301,8 @@ func cmdRun(args []string) {
 		}
 	}
 	var wg sync.WaitGroup
+	var hungMu sync.Mutex
+	var hungIdx []int
 	outs := make([]*workerOut, workers)
 	errs := make([]string, workers)
 	for w := 0; w < workers; w++ {
@@ -318,7 +321,40 @@ func cmdRun(args []string) {
 			logf, _ := os.Create(filepath.Join(scratch, fmt.Sprintf("w%d.log", w)))
 			cmd.Stdout = logf
 			cmd.Stderr = logf
-			runErr := cmd.Run()
+			runErr := cmd.Start()
+			if runErr == nil {
+				// parent-side watchdog: a worker stuck in a non-preemptible loop
+				// cannot run its own watchdog; it stops touching its heartbeat file
+				doneCh := make(chan error, 1)
+				go func() { doneCh <- cmd.Wait() }()
+				tick := time.NewTicker(5 * time.Second)
+			wait:
+				for {
+					select {
+					case runErr = <-doneCh:
+						break wait
+					case <-tick.C:
+						if fi, err := os.Stat(j.Out + ".hb"); err == nil && time.Since(fi.ModTime()) > 75*time.Second {
+							_ = cmd.Process.Signal(syscall.SIGQUIT)
+							select {
+							case <-doneCh:
+							case <-time.After(10 * time.Second):
+								_ = cmd.Process.Kill()
+								<-doneCh
+							}
+							runErr = fmt.Errorf("killed: no heartbeat for 75 s")
+							cur, _ := os.ReadFile(j.Out + ".cur")
+							idx, _ := strconv.Atoi(strings.TrimSpace(string(cur)))
+							hungMu.Lock()
+							hungIdx = append(hungIdx, idx)
+							hungMu.Unlock()
+
+							break wait
+						}
+					}
+				}
+				tick.Stop()
+			}
 			logf.Close()
 			b, rerr := os.ReadFile(j.Out)
 			if rerr == nil {
@@ -338,6 +374,47 @@ func cmdRun(args []string) {
 		}(w)
 	}
 	wg.Wait()
+	// workers whose own watchdog fired report the index in their output
+	for w, o := range outs {
+		if o != nil && o.Hung != "" {
+			cur, _ := os.ReadFile(filepath.Join(scratch, fmt.Sprintf("w%d.json.cur", w)))
+			if idx, err := strconv.Atoi(strings.TrimSpace(string(cur))); err == nil {
+				hungIdx = append(hungIdx, idx)
+			}
+		}
+	}
+	// confirm each hang in a fresh process; a reproducible hang is a verdict
+	var hangViolations []violationRec
+	sort.Ints(hungIdx)
+	if len(hungIdx) > 4 {
+		fmt.Fprintf(os.Stderr, "simcheck: %d runs hung; confirming the first 4\n", len(hungIdx))
+		hungIdx = hungIdx[:4]
+	}
+	var hwg sync.WaitGroup
+	for k, idx := range hungIdx {
+		hwg.Add(1)
+		go func(k, idx int) {
+			defer hwg.Done()
+			rf := map[string]any{"property": prop, "seed": runSeed(seed, prop, idx), "root_seed": seed, "index": idx, "tier": tier, "mode": "seed",
+				"signature": "hang:no-quiescence", "message": "the run never reached a quiescent point again: library code spins or blocks outside the simulator's control (see stack dump)"}
+			_ = os.MkdirAll(replayDir, 0o755)
+			name := filepath.Join(replayDir, fmt.Sprintf("%s-%d-%d-hang.json", prop, seed, idx))
+			b, _ := json.MarshalIndent(rf, "", " ")
+			_ = os.WriteFile(name, b, 0o644)
+			sub := filepath.Join(scratch, fmt.Sprintf("hang%d", k))
+			_ = os.MkdirAll(sub, 0o755)
+			if hung, _ := replayHangs(bres.Binary, sub, name); hung {
+				hungMu.Lock()
+				hangViolations = append(hangViolations, violationRec{Index: idx, Seed: runSeed(seed, prop, idx), Signature: "hang:no-quiescence",
+					Message: fmt.Sprintf("run %d does not terminate (confirmed in a fresh process): library code spins or blocks outside the simulator's control", idx), Replay: name, Confirmed: 1})
+				hungMu.Unlock()
+			} else {
+				fmt.Fprintf(os.Stderr, "HANG-NOT-REPRODUCED index %d (harness trouble, not a verdict)\n", idx)
+				os.Remove(name)
+			}
+		}(k, idx)
+	}
+	hwg.Wait()
 	trouble := false
 	for w, e := range errs {
 		if e != "" {
@@ -402,6 +479,7 @@ func cmdRun(args []string) {
 	}
 	wall := time.Since(start).Seconds()
 
+	agg.Violations = append(agg.Violations, hangViolations...)
 	known := loadKnown()
 	sort.Slice(agg.Violations, func(i, j int) bool { return agg.Violations[i].Index < agg.Violations[j].Index })
 	knownHit := map[string]int{}
@@ -513,6 +591,24 @@ func cmdReplay(args []string) {
 	if err != nil {
 		os.RemoveAll(scratch)
 		die(2, "BUILD-TROUBLE: %v", err)
+	}
+	var mode struct {
+		Mode string `json:"mode"`
+	}
+	_ = json.Unmarshal(raw, &mode)
+	if mode.Mode == "seed" {
+		hung, out := replayHangs(bres.Binary, scratch, file)
+		if hung {
+			fmt.Printf("VIOLATION property=%s replay=%s\n  signature=hang:no-quiescence\n  the run does not terminate\n", rf.Property, file)
+			if fl["trace"] == "true" {
+				fmt.Println(out)
+			}
+			os.RemoveAll(scratch)
+			os.Exit(1)
+		}
+		fmt.Printf("replay of %s terminated: hang not reproduced\n", file)
+
+		return
 	}
 	j := job{Mode: "replay", File: file, Out: filepath.Join(scratch, "replay.json")}
 	jb, _ := json.Marshal(j)
@@ -643,5 +739,67 @@ func cmdSelftest(args []string) {
 	if bad > 0 {
 		os.RemoveAll(scratch)
 		os.Exit(1)
+	}
+}
+
+func splitmix64(x uint64) uint64 {
+	x += 0x9e3779b97f4a7c15
+	z := x
+	z = (z ^ (z >> 30)) * 0xbf58476d1ce4e5b9
+	z = (z ^ (z >> 27)) * 0x94d049bb133111eb
+
+	return z ^ (z >> 31)
+}
+
+func hashString(s string) uint64 {
+	var h uint64 = 1469598103934665603
+	for i := 0; i < len(s); i++ {
+		h ^= uint64(s[i])
+		h *= 1099511628211
+	}
+
+	return h
+}
+
+// runSeed mirrors verifsim.RunSeed.
+func runSeed(root uint64, prop string, idx int) uint64 {
+	return splitmix64(splitmix64(root^hashString(prop)) + uint64(idx)*0x9e3779b97f4a7c15)
+}
+
+// replayHangs runs a seed-mode replay under a timeout; true = it did not finish.
+func replayHangs(binary, scratch, file string) (bool, string) {
+	j := job{Mode: "replay", File: file, Out: filepath.Join(scratch, "hang-replay.json")}
+	os.Remove(j.Out)
+	jb, _ := json.Marshal(j)
+	jp := filepath.Join(scratch, "hang-job.json")
+	_ = os.WriteFile(jp, jb, 0o644)
+	cmd := exec.Command(binary, "-test.run", "^TestWorker$", "-test.timeout", "1h", "-test.count", "1")
+	cmd.Env = append(os.Environ(), "SIM_JOB="+jp, "GODEBUG=asyncpreemptoff=1", "GOMAXPROCS=1")
+	cmd.Dir = scratch
+	var buf strings.Builder
+	cmd.Stdout = &buf
+	cmd.Stderr = &buf
+	if err := cmd.Start(); err != nil {
+		return false, err.Error()
+	}
+	done := make(chan error, 1)
+	go func() { done <- cmd.Wait() }()
+	select {
+	case <-done:
+		if _, err := os.Stat(j.Out); err == nil {
+			return false, buf.String()
+		}
+		// the in-process watchdog killed it (exit 3) or it crashed: not finished
+		return strings.Contains(buf.String(), "no controller step") || cmd.ProcessState.ExitCode() == 3, buf.String()
+	case <-time.After(70 * time.Second):
+		_ = cmd.Process.Signal(syscall.SIGQUIT)
+		select {
+		case <-done:
+		case <-time.After(5 * time.Second):
+			_ = cmd.Process.Kill()
+			<-done
+		}
+
+		return true, buf.String()
 	}
 }
